@@ -1601,7 +1601,7 @@ impl Check for C24 {
     fn cases(&self, tier: Tier) -> u64 {
         match tier {
             Tier::Quick => 40_000,
-            Tier::Thorough => 800_000, // ~7 min on 14 workers, plus <= 10 min libFuzzer (prepare)
+            Tier::Thorough => 600_000, // ~5 min on 14 workers (unloaded machine), plus <= 10 min libFuzzer (prepare)
         }
     }
     fn tape_len(&self, _t: Tier) -> usize {
@@ -1650,7 +1650,7 @@ impl Check for C24 {
             let root = std::env::var("VERIF_ROOT").unwrap_or_else(|_| "/verif".into());
             use std::io::Write;
             if let Ok(mut fh) = std::fs::OpenOptions::new().create(true).append(true).open(std::path::Path::new(&root).join("evidence").join("C24.slow.log")) {
-                let _ = writeln!(fh, "{} ms cpu (main thread {} ms, wall {} ms)\t{}", used, used_main, w0.elapsed().as_millis(), vcore::runner::truncate(&case.wild.sql(), 4000));
+                let _ = writeln!(fh, "{} ms cpu (main thread {} ms, wall {} ms)\t{}\t{}", used, used_main, w0.elapsed().as_millis(), vcore::runner::truncate(&case.wild.sql(), 4000), if used > 5000 { serde_json::to_string(case).unwrap_or_default() } else { String::new() });
             }
         }
         if segv::installed() {
